@@ -520,7 +520,7 @@ fn variants_c10(c: &Case, thorough: bool) -> Vec<Case> {
         for (si, (from, to, steps_ok)) in segs.iter().enumerate() {
             if si == 1 {
                 if let Some((_, slot)) = cancel {
-                    script.push(Cmd::Cancel { slot, how: rng.below(3) as u8 });
+                    script.push(Cmd::Cancel { slot, how: rng.below(4) as u8 });
                 }
             }
             let mut cur = *from;
